@@ -49,30 +49,44 @@ class Model:
     def __init__(self):
         # cat[db][schema][name] = {"kind": "TABLE"|"VIEW", "cols": [...], "comment": str|None}
         self.cat = {"DB1": {"S1": {}}}
+        # the session's current database / schema (schema None after USE DATABASE: neither database of the alphabet has a
+        # PUBLIC schema); unqualified names of the operations and of the reporters resolve against it
+        self.ctx = ["DB1", "S1"]
+        self.ctx_changed = False  # a USE statement was part of the history (cursors made before it have outlived it)
 
     def key(self):
-        return repr(sorted((d, sorted((s, sorted((n, o["kind"], o.get("comment"), [tuple(sorted((k, v) for k, v in c.items() if k != "origin")) for c in o["cols"]]) for n, o in objs.items())) for s, objs in sch.items())) for d, sch in self.cat.items()))
+        return repr((self.ctx, self.ctx_changed)) + repr(sorted((d, sorted((s, sorted((n, o["kind"], o.get("comment"), [tuple(sorted((k, v) for k, v in c.items() if k != "origin")) for c in o["cols"]]) for n, o in objs.items())) for s, objs in sch.items())) for d, sch in self.cat.items()))
 
-    def s1(self):
-        return self.cat["DB1"]["S1"]
+    def cs(self):
+        """objects of the current schema"""
+        return self.cat[self.ctx[0]][self.ctx[1]]
+
+    def use(self, db, schema):
+        self.ctx = [db, schema]
+        self.ctx_changed = True
 
 
 # ---- operations: id -> (sql, enabled(model) -> bool, apply(model)) ----------------------------------------------------------
-def _has(m, n, kind="TABLE", sch=("DB1", "S1")):
+def _has(m, n, kind="TABLE", sch=None):
+    sch = sch or tuple(m.ctx)
+    if sch[1] is None:  # no current schema: an unqualified name does not resolve
+        return False
     o = m.cat.get(sch[0], {}).get(sch[1], {}).get(n)
     return o is not None and o["kind"] == kind
 
 
-def _free(m, n, sch=("DB1", "S1")):
-    return sch[0] in m.cat and sch[1] in m.cat[sch[0]] and n not in m.cat[sch[0]][sch[1]]
+def _free(m, n, sch=None):
+    sch = sch or tuple(m.ctx)
+    return sch[1] is not None and sch[0] in m.cat and sch[1] in m.cat[sch[0]] and n not in m.cat[sch[0]][sch[1]]
 
 
-def _create(m, n, cols, comment=None, sch=("DB1", "S1")):
+def _create(m, n, cols, comment=None, sch=None):
+    sch = sch or tuple(m.ctx)
     m.cat[sch[0]][sch[1]][n] = {"kind": "TABLE", "cols": cols, "comment": comment}
 
 
 def _tcols(m, n):
-    return m.s1()[n]["cols"]
+    return m.cs()[n]["cols"]
 
 
 def _copy(cols, origin):
@@ -87,8 +101,13 @@ def _colnames(m, n):
     return [c["name"] for c in _tcols(m, n)]
 
 
+def _s2(m):
+    """`s2.<name>` = schema S2 of the current database"""
+    return (m.ctx[0], "S2")
+
+
 def _views_on(m, n):
-    return [v for v, o in m.s1().items() if o["kind"] == "VIEW" and o.get("on") == n]
+    return [v for v, o in m.cs().items() if o["kind"] == "VIEW" and o.get("on") == n]
 
 
 OPS = {}
@@ -105,30 +124,51 @@ op("replace_T", f"create or replace table t ({ddl_cols(['B20', 'D'])}) comment =
 op("replace_T_plain", f"create or replace table t ({ddl_cols(['A', 'C'])})", lambda m: (_free(m, "T") or _has(m, "T")) and not _views_on(m, "T"), lambda m: _create(m, "T", [col("A"), col("C")]))
 op("ctas_U_plain", "create table u as select b from t", lambda m: _free(m, "U") and _has(m, "T") and "B" in _colnames(m, "T"), lambda m: _create(m, "U", _copy([c for c in _tcols(m, "T") if c["name"] == "B"], "ctas_plain")))
 op("ctas_U_cast", "create table u as select cast(a as varchar(7)) as x, b from t", lambda m: _free(m, "U") and _has(m, "T") and {"A", "B"} <= set(_colnames(m, "T")), lambda m: _create(m, "U", [dict(col("X", "B"), len=7, desc="VARCHAR(7)", origin="ctas_cast")] + _copy([c for c in _tcols(m, "T") if c["name"] == "B"], "ctas_plain")))
-op("clone_U", "create table u clone t", lambda m: _free(m, "U") and _has(m, "T"), lambda m: m.s1().__setitem__("U", {"kind": "TABLE", "cols": _copy(_tcols(m, "T"), "clone"), "comment": ("?", m.s1()["T"]["comment"])}))
-op("view_V", "create view v as select a, b from t", lambda m: _free(m, "V") and _has(m, "T") and {"A", "B"} <= set(_colnames(m, "T")), lambda m: m.s1().__setitem__("V", {"kind": "VIEW", "on": "T", "cols": _copy([c for c in _tcols(m, "T") if c["name"] in ("A", "B")], "view"), "comment": None}))
-op("replace_view_V", "create or replace view v as select b from t", lambda m: (_free(m, "V") or _has(m, "V", "VIEW")) and _has(m, "T") and "B" in _colnames(m, "T"), lambda m: m.s1().__setitem__("V", {"kind": "VIEW", "on": "T", "cols": _copy([c for c in _tcols(m, "T") if c["name"] == "B"], "view"), "comment": None}))
+op("clone_U", "create table u clone t", lambda m: _free(m, "U") and _has(m, "T"), lambda m: m.cs().__setitem__("U", {"kind": "TABLE", "cols": _copy(_tcols(m, "T"), "clone"), "comment": ("?", m.cs()["T"]["comment"])}))
+# (views are created only while the session is in its home schema DB1.S1: fakesnow resolves the unqualified names of a view's
+#  body against the schema that is current when the view is QUERIED - a query-semantics matter, not explored here)
+op("view_V", "create view v as select a, b from t", lambda m: m.ctx == ["DB1", "S1"] and _free(m, "V") and _has(m, "T") and {"A", "B"} <= set(_colnames(m, "T")), lambda m: m.cs().__setitem__("V", {"kind": "VIEW", "on": "T", "cols": _copy([c for c in _tcols(m, "T") if c["name"] in ("A", "B")], "view"), "comment": None}))
+op("replace_view_V", "create or replace view v as select b from t", lambda m: m.ctx == ["DB1", "S1"] and (_free(m, "V") or _has(m, "V", "VIEW")) and _has(m, "T") and "B" in _colnames(m, "T"), lambda m: m.cs().__setitem__("V", {"kind": "VIEW", "on": "T", "cols": _copy([c for c in _tcols(m, "T") if c["name"] == "B"], "view"), "comment": None}))
 op("add_E", "alter table t add column e float", lambda m: _has(m, "T") and "E" not in _colnames(m, "T"), lambda m: _tcols(m, "T").append(col("E")))
 op("add_H", "alter table t add column h varchar(3)", lambda m: _has(m, "T") and "H" not in _colnames(m, "T"), lambda m: _tcols(m, "T").append(col("H")))
-op("drop_B", "alter table t drop column b", lambda m: _has(m, "T") and "B" in _colnames(m, "T") and len(_colnames(m, "T")) > 1 and not _views_on(m, "T"), lambda m: m.s1()["T"].__setitem__("cols", [c for c in _tcols(m, "T") if c["name"] != "B"]))
+op("drop_B", "alter table t drop column b", lambda m: _has(m, "T") and "B" in _colnames(m, "T") and len(_colnames(m, "T")) > 1 and not _views_on(m, "T"), lambda m: m.cs()["T"].__setitem__("cols", [c for c in _tcols(m, "T") if c["name"] != "B"]))
 op("readd_B", "alter table t add column b varchar", lambda m: _has(m, "T") and "B" not in _colnames(m, "T"), lambda m: _tcols(m, "T").append(col("B", "C")))
 op("rename_col_B", "alter table t rename column b to b2", lambda m: _has(m, "T") and "B" in _colnames(m, "T") and "B2" not in _colnames(m, "T") and not _views_on(m, "T"), lambda m: [c.update(name="B2", origin="renamed_column") for c in _tcols(m, "T") if c["name"] == "B"])
-op("rename_T_U", "alter table t rename to u", lambda m: _has(m, "T") and _free(m, "U") and not _views_on(m, "T"), lambda m: m.s1().__setitem__("U", dict(m.s1().pop("T"), renamed=True)))
-op("rename_U_T", "alter table u rename to t", lambda m: _has(m, "U") and _free(m, "T"), lambda m: m.s1().__setitem__("T", dict(m.s1().pop("U"), renamed=True)))
-op("set_comment", "alter table t set comment = 'c3'", lambda m: _has(m, "T"), lambda m: m.s1()["T"].__setitem__("comment", "c3"))
-op("comment_on", "comment on table t is 'c4'", lambda m: _has(m, "T"), lambda m: m.s1()["T"].__setitem__("comment", "c4"))
-op("drop_T", "drop table t", lambda m: _has(m, "T") and not _views_on(m, "T"), lambda m: m.s1().pop("T"))
-op("drop_U", "drop table u", lambda m: _has(m, "U"), lambda m: m.s1().pop("U"))
-op("drop_V", "drop view v", lambda m: _has(m, "V", "VIEW"), lambda m: m.s1().pop("V"))
-op("create_S2", "create schema s2", lambda m: "S2" not in m.cat["DB1"], lambda m: m.cat["DB1"].__setitem__("S2", {}))
-op("create_S2_T", f"create table s2.t ({ddl_cols(['A', 'H'])}) comment = 's2c'", lambda m: _free(m, "T", ("DB1", "S2")), lambda m: _create(m, "T", [col("A"), col("H")], "s2c", ("DB1", "S2")))
+op("rename_T_U", "alter table t rename to u", lambda m: _has(m, "T") and _free(m, "U") and not _views_on(m, "T"), lambda m: m.cs().__setitem__("U", dict(m.cs().pop("T"), renamed=True)))
+op("rename_U_T", "alter table u rename to t", lambda m: _has(m, "U") and _free(m, "T"), lambda m: m.cs().__setitem__("T", dict(m.cs().pop("U"), renamed=True)))
+op("set_comment", "alter table t set comment = 'c3'", lambda m: _has(m, "T"), lambda m: m.cs()["T"].__setitem__("comment", "c3"))
+op("comment_on", "comment on table t is 'c4'", lambda m: _has(m, "T"), lambda m: m.cs()["T"].__setitem__("comment", "c4"))
+# replacing an EXISTING (or absent) comment by every member of the comment alphabet through both routes: the empty string
+# (the alphabet's falsy member), a value equal to the one create_T_comment declared ('c1'), fresh values ('c3', 'c4' above)
+# and one with an escaped quote
+op("comment_on_empty", "comment on table t is ''", lambda m: _has(m, "T"), lambda m: m.cs()["T"].__setitem__("comment", ""))
+op("set_comment_empty", "alter table t set comment = ''", lambda m: _has(m, "T"), lambda m: m.cs()["T"].__setitem__("comment", ""))
+op("comment_on_same", "comment on table t is 'c1'", lambda m: _has(m, "T"), lambda m: m.cs()["T"].__setitem__("comment", "c1"))
+op("set_comment_same", "alter table t set comment = 'c1'", lambda m: _has(m, "T"), lambda m: m.cs()["T"].__setitem__("comment", "c1"))
+op("comment_on_quote", "comment on table t is 'it''s'", lambda m: _has(m, "T"), lambda m: m.cs()["T"].__setitem__("comment", "it's"))
+op("replace_T_empty_comment", f"create or replace table t ({ddl_cols(['A', 'B'])}) comment = ''", lambda m: (_free(m, "T") or _has(m, "T")) and not _views_on(m, "T"), lambda m: _create(m, "T", [col("A"), col("B")], ""))
+op("drop_T", "drop table t", lambda m: _has(m, "T") and not _views_on(m, "T"), lambda m: m.cs().pop("T"))
+op("drop_U", "drop table u", lambda m: _has(m, "U"), lambda m: m.cs().pop("U"))
+op("drop_V", "drop view v", lambda m: _has(m, "V", "VIEW"), lambda m: m.cs().pop("V"))
+op("create_S2", "create schema s2", lambda m: "S2" not in m.cat[m.ctx[0]], lambda m: m.cat[m.ctx[0]].__setitem__("S2", {}))
+op("create_S2_T", f"create table s2.t ({ddl_cols(['A', 'H'])}) comment = 's2c'", lambda m: _free(m, "T", _s2(m)), lambda m: _create(m, "T", [col("A"), col("H")], "s2c", _s2(m)))
 # a clone placed in ANOTHER schema, source named without a schema (= the current schema), with and without a same-named
 # table of other columns already present in the target schema
-op("clone_into_S2", "create table s2.u clone t", lambda m: _free(m, "U", ("DB1", "S2")) and _has(m, "T"), lambda m: m.cat["DB1"]["S2"].__setitem__("U", {"kind": "TABLE", "cols": _copy(_tcols(m, "T"), "clone"), "comment": ("?", m.s1()["T"]["comment"])}))
-op("drop_S2", "drop schema s2", lambda m: "S2" in m.cat["DB1"], lambda m: m.cat["DB1"].pop("S2"))
+op("clone_into_S2", "create table s2.u clone t", lambda m: _free(m, "U", _s2(m)) and _has(m, "T"), lambda m: m.cat[m.ctx[0]]["S2"].__setitem__("U", {"kind": "TABLE", "cols": _copy(_tcols(m, "T"), "clone"), "comment": ("?", m.cs()["T"]["comment"])}))
+op("drop_S2", "drop schema s2", lambda m: "S2" in m.cat[m.ctx[0]] and m.ctx[1] != "S2", lambda m: m.cat[m.ctx[0]].pop("S2"))
 op("create_DB2", "create database db2", lambda m: "DB2" not in m.cat, lambda m: m.cat.__setitem__("DB2", {}))
 op("create_DB2_S1", "create schema db2.s1", lambda m: "DB2" in m.cat and "S1" not in m.cat["DB2"], lambda m: m.cat["DB2"].__setitem__("S1", {}))
 op("create_DB2_T", f"create table db2.s1.t ({ddl_cols(['C', 'D'])}) comment = 'db2c'", lambda m: _free(m, "T", ("DB2", "S1")), lambda m: _create(m, "T", [col("C"), col("D")], "db2c", ("DB2", "S1")))
+# changes of the session context (the reporters without an explicit database / schema follow it, whatever cursor asks)
+def _no_views(m):
+    """(see view_V: a view's body is resolved against the schema current at query time, so no USE while a view exists)"""
+    return not any(o["kind"] == "VIEW" for sch in m.cat.values() for objs in sch.values() for o in objs.values())
+
+
+op("use_S2", "use schema s2", lambda m: _no_views(m) and "S2" in m.cat[m.ctx[0]] and m.ctx[1] != "S2", lambda m: m.use(m.ctx[0], "S2"))
+op("use_DB2", "use database db2", lambda m: _no_views(m) and "DB2" in m.cat and m.ctx[0] != "DB2", lambda m: m.use("DB2", None))
+op("use_DB2_S1", "use schema db2.s1", lambda m: _no_views(m) and "S1" in m.cat.get("DB2", {}) and m.ctx != ["DB2", "S1"], lambda m: m.use("DB2", "S1"))
+op("use_back", "use schema db1.s1", lambda m: _no_views(m) and m.ctx != ["DB1", "S1"], lambda m: m.use("DB1", "S1"))
 # statements that must FAIL and change nothing (a rejected CREATE must not touch the metadata of the existing table)
 FAILING = {"dup_create_T", "dup_create_T_ctas", "replace_U_from_missing", "dup_create_V", "add_existing_col"}
 op("dup_create_T", "create table t (other int, z varchar(2)) comment = 'dup'", lambda m: _has(m, "T"), lambda m: None)
@@ -144,6 +184,8 @@ QUICK_OPS = [
     "create_T", "create_T_comment", "replace_T", "ctas_U_plain", "ctas_U_cast", "clone_U", "view_V", "add_H", "drop_B", "readd_B",
     "rename_col_B", "rename_T_U", "set_comment", "comment_on", "drop_T", "drop_U", "create_S2", "create_S2_T", "create_DB2", "nop_tag",
     "dup_create_T", "replace_U_from_missing", "clone_into_S2",
+    "comment_on_empty", "set_comment_empty", "comment_on_same", "set_comment_same",
+    "use_S2", "use_DB2", "use_DB2_S1", "use_back",
 ]
 # explicit deeper histories (name collisions across time, schemas and databases) explored in both tiers
 COLLISIONS = [
@@ -179,6 +221,19 @@ COLLISIONS = [
     ["create_T_comment", "ctas_U_plain", "drop_T", "rename_U_T"],
     ["create_T_comment", "ctas_U_cast", "drop_T", "rename_U_T", "nop_set"],
     ["create_T_comment", "rename_T_U", "create_T", "drop_T", "rename_U_T"],
+    # an existing comment replaced by each member of the comment alphabet (and a first comment that is the empty one)
+    ["create_T", "comment_on_empty", "comment_on", "set_comment_empty", "set_comment"],
+    ["create_T", "comment_on", "comment_on_same", "set_comment_same", "comment_on_quote", "comment_on_empty"],
+    ["create_T_comment", "rename_T_U", "rename_U_T", "set_comment_empty"],
+    ["create_T_comment", "replace_T_empty_comment", "comment_on", "replace_T_empty_comment"],
+    ["create_T_comment", "comment_on_empty", "drop_T", "create_T"],
+    ["create_DB2", "create_DB2_S1", "create_DB2_T", "use_DB2_S1", "comment_on_empty", "use_back"],
+    # the session context moves (USE DATABASE: no current schema; USE SCHEMA in the same / another database; and back) while
+    # both databases hold same-named objects, keys and comments
+    ["create_T_comment", "create_PK", "create_DB2", "create_DB2_S1", "create_DB2_T", "use_DB2", "use_back"],
+    ["create_T_comment", "create_DB2", "create_DB2_S1", "use_DB2_S1", "create_PK", "create_T_other", "use_back", "drop_T"],
+    ["create_T", "create_S2", "use_S2", "create_T_comment", "create_PK", "use_back", "view_V", "drop_V", "drop_T"],
+    ["create_DB2", "use_DB2", "create_DB2_S1", "create_DB2_T", "use_DB2_S1", "set_comment", "create_S2", "create_S2_T"],
 ]
 
 
@@ -189,15 +244,23 @@ def build(hist):
     fs = inst.FakeSnow()
     conn = fs.connect(database="db1", schema="s1")
     m = Model()
-    cur = conn.cursor()
+    cur, idle = long_lived(conn)
     for oid in hist:
         sql, _en, ap = OPS[oid]
-        ap(m)
         try:
             cur.execute(sql)
-        except Exception:  # noqa: BLE001
+            ap(m)
+        except Exception:  # noqa: BLE001  a statement that raises declares nothing (expand() reports it once)
             pass
+    conn._c09_cursors = {"ran_the_history": cur, "idle_since_connect": idle}
     return fs, conn, m
+
+
+def long_lived(conn):
+    """two cursors made BEFORE the history starts: the one that executes it, and one that stays idle meanwhile"""
+    from snowflake.connector.cursor import DictCursor
+
+    return conn.cursor(DictCursor), conn.cursor(DictCursor)
 
 
 def truth(fs):
@@ -215,7 +278,7 @@ def q(cur, sql):
         return exc_info(e)
 
 
-def sweep(conn, m: Model, acc, rp, last, keep=None):
+def sweep(conn, m: Model, acc, rp, last, keep=None, fs=None):
     """Run every metadata reporter and compare with the model. Returns number of reporters run.
     keep: dict living as long as the session (stepwise mode): one dedicated cursor per object that executes nothing but
     `select * from <object>` - re-executed after every step while the catalog changes through other cursors."""
@@ -224,6 +287,7 @@ def sweep(conn, m: Model, acc, rp, last, keep=None):
 
     dcur = conn.cursor(DictCursor)
     n = 0
+    cdb, csch = m.ctx
 
     def bad(clause, cls, detail):
         acc.violation(clause, cls, dict(detail, after=last), rp)
@@ -252,7 +316,9 @@ def sweep(conn, m: Model, acc, rp, last, keep=None):
                     flex.add((dd, s, n_))
                     cm = None
                 want.append((dd, s, n_, "BASE TABLE" if o["kind"] == "TABLE" else "VIEW", cm))
-        got_cmp = sorted(g if (g[0], g[1], g[2]) not in flex else g[:4] + (None,) for g in got)
+        # not demanded: whether a declared EMPTY comment reads back as '' or as NULL
+        empty = {w[:3] for w in want if w[4] == ""}
+        got_cmp = sorted(g[:4] + (None,) if (g[0], g[1], g[2]) in flex else (g[:4] + ("",) if g[:3] in empty and g[4] is None else g) for g in got)
         if got_cmp != sorted(want):
             names_ok = sorted(g[:4] for g in got) == sorted(w[:4] for w in want)
             if names_ok:
@@ -260,9 +326,9 @@ def sweep(conn, m: Model, acc, rp, last, keep=None):
                     if g != w:
                         o = m.cat[g[0]][g[1]][g[2]]
                         how = "renamed_table" if o.get("renamed") else "declared_or_set"
-                        bad("C09.comment", f"reporter=information_schema.tables,db={'current' if d == 'DB1' else 'other'},{explain_comment(w[4], g[4])},table={how}", {"table": g[:3], "expected": w[4], "got": g[4]})
+                        bad("C09.comment", f"reporter=information_schema.tables,db={'current' if d == cdb else 'other'},{explain_comment(w[4], g[4])},table={how}", {"table": g[:3], "expected": w[4], "got": g[4]})
             else:
-                bad("C09.info_tables", f"db={'current' if d == 'DB1' else 'other'},objects", {"expected": sorted(w[:4] for w in want), "got": sorted(g[:4] for g in got)})
+                bad("C09.info_tables", f"db={'current' if d == cdb else 'other'},objects", {"expected": sorted(w[:4] for w in want), "got": sorted(g[:4] for g in got)})
     # -- information_schema.columns
     for d in sorted(m.cat):
         r = q(dcur, f"select * from {d}.information_schema.columns")
@@ -296,7 +362,7 @@ def sweep(conn, m: Model, acc, rp, last, keep=None):
         bad("C09.info_views", "raises", {"got": r})
     else:
         got = sorted((x["table_catalog"], x["table_schema"], x["table_name"]) for x in r)
-        want = sorted((d, s, n_) for d, s, n_, o in user_tables if o["kind"] == "VIEW" and d == "DB1")
+        want = sorted((d, s, n_) for d, s, n_, o in user_tables if o["kind"] == "VIEW" and d == cdb)
         if got != want:
             bad("C09.info_views", "objects", {"expected": want, "got": got})
     r = q(dcur, "select * from information_schema.databases")
@@ -310,7 +376,7 @@ def sweep(conn, m: Model, acc, rp, last, keep=None):
     # -- DESCRIBE TABLE / VIEW and description of SELECT *
     for d, s, n_, o in user_tables:
         fq = f"{d}.{s}.{n_}"
-        names = [fq] + ([n_] if (d, s) == ("DB1", "S1") else [])
+        names = [fq] + ([n_] if (d, s) == (cdb, csch) else [])
         for nm in names:
             r = q(dcur, f"describe {'table' if o['kind'] == 'TABLE' else 'view'} {nm}")
             n += 1
@@ -350,14 +416,13 @@ def sweep(conn, m: Model, acc, rp, last, keep=None):
                     check_columns(acc, rp, last, "describe_unqualified_after_use_schema", f"{d}.{s}.T", o, [{"name": x["name"], "desc": x["type"], "null": x["null?"] == "Y"} for x in r])
             except Exception as e:  # noqa: BLE001
                 bad("C09.description", "unqualified_after_use_schema,raises", {"schema": f"{d}.{s}", "got": exc_info(e)})
-        cur.execute("use schema db1.s1")
+        cur.execute(f"use schema {cdb}.{csch}" if csch else f"use database {cdb}")
     # -- SHOW TABLES / OBJECTS / SCHEMAS in every scope
     shows = [
         ("show tables", "TABLE", None, None),
         ("show terse tables", "TABLE", None, None),
         ("show tables in database db1", "TABLE", "DB1", None),
         ("show tables in schema db1.s1", "TABLE", "DB1", "S1"),
-        ("show tables in schema s1", "TABLE", "DB1", "S1"),
         ("show objects", None, None, None),
         ("show terse objects in schema db1.s1", None, "DB1", "S1"),
         ("show objects in database db1", None, "DB1", None),
@@ -385,32 +450,85 @@ def sweep(conn, m: Model, acc, rp, last, keep=None):
             for x in r:
                 key = (x["database_name"], x["schema_name"], x["name"])
                 o = m.cat.get(key[0], {}).get(key[1], {}).get(key[2])
-                if o and not isinstance(o["comment"], tuple) and (x["comment"] or None) != o["comment"]:
+                if o and not isinstance(o["comment"], tuple) and (x["comment"] or None) != (o["comment"] or None):
                     bad("C09.comment", f"reporter=show_{what},{explain_comment(o['comment'], x['comment'])}", {"object": key, "expected": o["comment"], "got": x["comment"]})
-    r = q(dcur, "show schemas")
+    # -- the reporters that name no database (or no schema's database): they describe the CURRENT database, whichever cursor
+    #    of whichever connection asks - one made just now, and (once the history has changed the session context) the two
+    #    cursors made before the history, one made right after the first change, and one of a second connection
+    n += ctx_reporters(dcur, m, acc, rp, last, "new")
+    if m.ctx_changed:
+        olds = dict(getattr(conn, "_c09_cursors", {}))
+        if keep is not None:
+            olds["made_after_first_context_change"] = keep.setdefault(("cursor", "midway"), conn.cursor(DictCursor))
+        for who in sorted(olds):
+            n += ctx_reporters(olds[who], m, acc, rp, last, who)
+        if fs is not None:
+            conn2 = fs.connect(database=cdb.lower(), **({"schema": csch.lower()} if csch else {}))
+            n += ctx_reporters(conn2.cursor(DictCursor), m, acc, rp, last, "second_connection")
+    return n
+
+
+def ctx_reporters(dc, m: Model, acc, rp, last, who):
+    """SHOW TABLES|OBJECTS IN DATABASE (unnamed), IN SCHEMA <unqualified>, SHOW SCHEMAS, SHOW PRIMARY KEYS and DESCRIBE of an
+    unqualified name, on the DictCursor dc (who = how dc came to be) against the model's current database / schema."""
+    cdb, csch = m.ctx
+    n = 0
+
+    def bad(clause, cls, detail):
+        acc.violation(clause, cls, dict(detail, after=last, cursor=who, current=list(m.ctx)), rp)
+
+    def isexc(r):
+        return isinstance(r, tuple) and r and r[0] == "err"
+
+    objs = [(s, n_, o) for s, sch in m.cat[cdb].items() for n_, o in sch.items()]
+    stmts = [("show terse tables in database", "TABLE", None), ("show objects in database", None, None)]
+    stmts += [(f"show tables in schema {s.lower()}", "TABLE", s) for s in sorted(m.cat[cdb])]
+    for sql, kind, ss in stmts:
+        r = q(dc, sql)
+        n += 1
+        what = sql.split()[1] if "terse" not in sql else "terse_" + sql.split()[2]
+        scope = "current_database" if ss is None else "schema_of_current_database"
+        if isexc(r):
+            bad("C09.show", f"{what},scope={scope},cursor={who},raises", {"sql": sql, "got": r})
+            continue
+        got = sorted((x["database_name"], x["schema_name"], x["name"], x["kind"]) for x in r if not str(x["name"]).lower().startswith("_fs_") and x["schema_name"] not in ("information_schema",))
+        want = sorted((cdb, s, n_, o["kind"]) for s, n_, o in objs if (kind is None or o["kind"] == kind) and (ss is None or s == ss))
+        if got != want:
+            bad("C09.show", f"{what},scope={scope},cursor={who},objects", {"sql": sql, "expected": want, "got": got})
+    r = q(dc, "show schemas")
     n += 1
     if isexc(r):
-        bad("C09.show", "schemas,raises", {"got": r})
+        bad("C09.show", f"schemas,cursor={who},raises", {"got": r})
     else:
         got = sorted((x["database_name"], x["name"]) for x in r if x["name"] not in ("information_schema", "INFORMATION_SCHEMA"))
-        want = sorted(("DB1", s) for s in m.cat["DB1"])
+        want = sorted((cdb, s) for s in m.cat[cdb])
         if got != want:
-            bad("C09.show", "schemas,objects", {"expected": want, "got": got})
-    r = q(dcur, "show primary keys")
+            bad("C09.show", f"schemas,cursor={who},objects", {"expected": want, "got": got})
+    r = q(dc, "show primary keys")
     n += 1
     if isexc(r):
-        bad("C09.show", "primary_keys,raises", {"got": r})
+        bad("C09.show", f"primary_keys,cursor={who},raises", {"got": r})
     else:
-        got = sorted((x["schema_name"], x["table_name"], x["column_name"]) for x in r)
-        want = sorted(("S1", "P", "ID") for _ in [0] if "P" in m.s1())
+        got = sorted((x["database_name"], x["schema_name"], x["table_name"], x["column_name"]) for x in r)
+        want = sorted((cdb, s, "P", "ID") for s, n_, o in objs if n_ == "P")
         if got != want:
-            bad("C09.show", "primary_keys,objects", {"expected": want, "got": got})
+            bad("C09.show", f"primary_keys,cursor={who},objects", {"expected": want, "got": got})
+    if who != "new" and csch is not None:  # (the new cursor's DESCRIBE of unqualified names is part of the main sweep)
+        for n_, o in sorted(m.cat[cdb][csch].items()):
+            r = q(dc, f"describe {'table' if o['kind'] == 'TABLE' else 'view'} {n_}")
+            n += 1
+            if isexc(r):
+                bad("C09.describe", f"kind={o['kind']},unqualified,cursor={who},raises", {"object": n_, "got": r})
+            else:  # names and order only: types, lengths and nullability are compared on the new cursor
+                check_columns(acc, rp, last, f"describe_unqualified,cursor={who}", f"{cdb}.{csch}.{n_}", o, [{"name": x["name"]} for x in r])
     return n
 
 
 def explain_comment(want, got):
     if want is None and got is not None:
         return "stale_comment_shown"
+    if want == "" and got not in (None, ""):
+        return "comment_not_replaced_by_empty"
     if want is not None and got in (None, ""):
         return "comment_missing"
     return "comment_other"
@@ -490,7 +608,7 @@ def sweep_item(item, acc: core.Acc, tier):
     hist = item
     fs, conn, m = build(hist)
     try:
-        n = sweep(conn, m, acc, {"history": hist, "sweep": True}, hist[-1] if hist else "connect")
+        n = sweep(conn, m, acc, {"history": hist, "sweep": True}, hist[-1] if hist else "connect", fs=fs)
     finally:
         fs.duck_conn.close()
     acc.count("evaluations")
@@ -512,19 +630,20 @@ def sweep_stepwise(hist, acc: core.Acc):
     try:
         conn = fs.connect(database="db1", schema="s1")
         m = Model()
-        cur = conn.cursor()
+        cur, idle = long_lived(conn)
+        conn._c09_cursors = {"ran_the_history": cur, "idle_since_connect": idle}
         keep = {}
-        n += sweep(conn, m, acc, {"history": [], "sweep": "stepwise", "full_history": hist}, "connect", keep)
+        n += sweep(conn, m, acc, {"history": [], "sweep": "stepwise", "full_history": hist}, "connect", keep, fs=fs)
         for i, oid in enumerate(hist):
             sql, _en, ap = OPS[oid]
-            ap(m)
             try:
                 cur.execute(sql)
-            except Exception:  # noqa: BLE001
+                ap(m)
+            except Exception:  # noqa: BLE001  a statement that raises declares nothing (expand() reports it once)
                 pass
-            n += sweep(conn, m, acc, {"history": hist[: i + 1], "sweep": "stepwise", "full_history": hist}, oid, keep)
+            n += sweep(conn, m, acc, {"history": hist[: i + 1], "sweep": "stepwise", "full_history": hist}, oid, keep, fs=fs)
         # ... and once more from a connection made only now (what a session set up at connect must not be stale)
-        conn2 = fs.connect(database="db1", schema="s1")
+        conn2 = fs.connect(database=m.ctx[0].lower(), **({"schema": m.ctx[1].lower()} if m.ctx[1] else {}))
         n += sweep(conn2, m, acc, {"history": hist, "sweep": "stepwise", "full_history": hist, "from": "new connection"}, hist[-1] if hist else "connect")
     finally:
         fs.duck_conn.close()
